@@ -145,6 +145,9 @@ def minimiser(seed, runs, maxlen):
             if j % 7 == 0:
                 churn(rng, n)
         emit({"ev": "mend"})
+        if i % 5 == 0:
+            for x in (0, (1 << (2 * m)) - 1, rng.getrandbits(2 * m)):
+                emit({"ev": "macgt", "m": m, "x": d32(x), "txt": list(it.to_acgt(x).encode())})
     emit({"ev": "eof"})
 
 
